@@ -63,7 +63,7 @@ func checkC03(c *Ctx, r *Result, tier string) {
 		r.Undecide("R03a: %v", err)
 		return
 	}
-	r.Floor("R03a-grammar-entries", len(gr.ByToken), 60)
+	r.Floor("R03a-grammar-entries", len(gr.ByToken), 50)
 	for _, p := range checkShapeTable(gr) {
 		r.Undecide("shape table: %s", p)
 	}
@@ -456,7 +456,7 @@ func c03Operators(c *Ctx, r *Result) {
 			r.Report(Finding{Rule: "R03c", Site: "interpreter.providerMap#notin", Msg: "operator `notin` is not computed as the negation of the `in` runtime's result"})
 		}
 	}
-	r.Floor("R03c", n, 22)
+	r.Floor("R03c", n, 18)
 }
 
 // c03OperandErrors: R03d.
@@ -552,5 +552,5 @@ func c03OperandErrors(c *Ctx, r *Result) {
 			}
 		})
 	}
-	r.Floor("R03d", n, 7)
+	r.Floor("R03d", n, 5)
 }
